@@ -1165,7 +1165,21 @@ class FortranBackend(BaseBackend):
         return stop + start
 
     @staticmethod
+    def _dp_literal(x) -> str:
+        """Fortran double-precision literal of a real scalar.  A literal without the exponent letter ``d``
+        (``0.1``, ``1e-07``) is of default REAL kind, i.e. single precision, even when it is assigned to a
+        ``double precision`` variable."""
+        try:
+            s = repr(float(x))
+        except (TypeError, ValueError):
+            return f"{x}"
+        if 'inf' in s or 'nan' in s:
+            return f"{x}"
+        return s.replace('e', 'd') if 'e' in s else s + 'd0'
+
+    @staticmethod
     def _var_to_str(y: ComputeVar) -> str:
         if y.is_complex:
-            return f"({np.real(y.value)}, {np.imag(y.value)})"
-        return f"{y.value}"
+            return (f"({FortranBackend._dp_literal(np.real(y.value))}, "
+                    f"{FortranBackend._dp_literal(np.imag(y.value))})")
+        return FortranBackend._dp_literal(y.value)
